@@ -389,6 +389,36 @@ func FailingInsert(rt *rapid.T, t *model.Table) model.Stmt {
 	return s
 }
 
+// FailingStmt draws a statement that must be refused: a FailingInsert into t, a
+// CREATE TABLE of a table that exists, or a CREATE TABLE the catalog cannot
+// record (a VARCHAR length beyond 32 bits, an over-long column name - whether
+// those two are refused is the implementation's choice; callers drop the case
+// when they are accepted).
+func FailingStmt(rt *rapid.T, db *model.DB, t *model.Table) model.Stmt {
+	switch rapid.IntRange(0, 5).Draw(rt, "failkind") {
+	case 0:
+		s := model.Stmt{Kind: "create", Table: t.Name, Cols: Columns(rt, 3), Fails: true}
+		s.SQL = RenderStmt(NewStyle(rt), s)
+		return s
+	case 1, 2:
+		cols := Columns(rt, 4)
+		k := rapid.IntRange(0, len(cols)-1).Draw(rt, "badcol")
+		if rapid.Bool().Draw(rt, "badlen") {
+			cols[k].Type, cols[k].Len = model.TVarchar, rapid.SampledFrom([]int{2147483648, 9999999999}).Draw(rt, "len")
+		} else {
+			cols[k].Name = "n" + strings.Repeat("x", rapid.IntRange(390, 420).Draw(rt, "namelen"))
+		}
+		name := "refused_tbl"
+		for i := 0; db.Tables[name] != nil; i++ {
+			name = fmt.Sprintf("refused_tbl%d", i)
+		}
+		s := model.Stmt{Kind: "create", Table: name, Cols: cols, Fails: true}
+		s.SQL = RenderStmt(NewStyle(rt), s)
+		return s
+	}
+	return FailingInsert(rt, t)
+}
+
 // TextInsert draws an n-row INSERT into t rendered as SQL text.
 func TextInsert(rt *rapid.T, t *model.Table, n int, small bool) model.Stmt {
 	s := InsertStmt(rt, t, n, false, small)
